@@ -122,6 +122,23 @@ EXTRA3 = {
 }
 for k, v in EXTRA3.items():
     CHECKS[k]['text'] += v
+# additions after the sixth round of seeded changes
+EXTRA4 = {
+ 'C01': " One symbol makes the next RTCP write at the transport fail (the injected transport error wraps io.ErrClosedPipe); a Read or Write that never returns is a violation.",
+ 'C02': " Every job ends with Close followed by one more well-formed packet, which must not crash or wedge.",
+ 'C03': " Every fourth arrival is a padding-only packet.",
+ 'C04': " The quick tier includes the largest legal size 32768.",
+ 'C05': " Scripted histories let the arrival-time ring grow beyond 512 numbers, shrink to a range that is not a power of two and then take a late packet.",
+ 'C09': " The second transport-cc stream negotiates another extension id and carries an unrelated extension under the first one's id.",
+ 'C10': " Writes to the mock transport are scheduling points. C15R (with a next writer that fails while other streams write) runs as a part of this check as well.",
+ 'C11': " Writes to the mock transport are scheduling points (a lock released just before a write no longer hides the window); NACKs name several buffered packets in one entry; a request's goroutine may write at most one retransmission after UnbindLocalStream returned.",
+ 'C14': " A bystander encoder of another stream encodes with the first batch's configuration and switches configuration before every later batch.",
+ 'C15': " In one scenario the next writer of one stream fails while the other streams write: the numbers seen at the transport (the failing call included) stay unique and consecutive.",
+ 'C17': " Every stream has an earlier registration with a writer that is gone.",
+ 'C18': " A scripted case buffers the whole 16-bit sequence space, clears, and starts a new stream.",
+}
+for k, v in EXTRA4.items():
+    CHECKS[k]['text'] += v
 checks = []
 for pid in sorted(CHECKS):
     c = CHECKS[pid]
